@@ -14,6 +14,8 @@ const c04ReadTimeout = 30 * time.Millisecond
 const c04Grace = 1500 * time.Millisecond
 const c04CallerDeadline = 150 * time.Millisecond
 
+var c04FreeCount int
+
 // c04FreeRun executes sc without gates. cancelAfter < 0: no cancellation; else the caller's context is
 // cancelled once cancelAfter connection events (reads + writes) have happened.
 func c04FreeRun(sc *c04Scen, cancelAfter int, fam string) (c04Obs, string) {
@@ -35,6 +37,8 @@ func c04FreeRun(sc *c04Scen, cancelAfter int, fam string) (c04Obs, string) {
 		}
 	}
 	r.strict = &strict
+	c04FreeCount++
+	r.distantDeadline = c04FreeCount%2 == 0
 	r.startDo(false)
 	// the caller always has a deadline: a server that goes silent must not hang the run
 	go func() {
